@@ -49,6 +49,14 @@
 //     not decide (Go's short-circuit evaluation): three early returns and one merged condition give the same term;
 //   - `xs[i], ys[i] = f(…)` (index operands free of panics), and `p.F = xs` after the last index write to xs (outside every loop) are
 //     in the subset; a function pulled in only as a callee (not a root of the table) is tagged `@[gen_unfold]` (OW/Gen/Attr.lean).
+//   - (work package R3) deadvars.go: a local that is only ever assigned (a pure, panic-free right-hand side; `v = append(v, …)`) and never
+//     read is deleted with its assignments before translation (FindRoot's `trialDeltas`); closures.go: calls of a function literal bound
+//     once to a local name (one result, one trailing `return`, only ever called) are inlined at the statement that makes them, after
+//     `&&` / `||` with a call in the right operand have been taken apart into nested `if`s (brackets' `knot(k)`); arrays `[N]T` are lists
+//     of N zero values, `arr[:k]` / `arr[a:b]` of an ARRAY is `sliceTo` / `sliceFrom` (length = capacity, so the bound check is Go's);
+//     `make([]T, 0, c)` is the empty slice when every `append` of the function is `v = append(v, …)` (spare capacity cannot be observed);
+//     `a, b = x, y` evaluates all right-hand sides first; `for i := range xs` may write `xs` (only its length, taken once, is used);
+//     a package-level constant that is one signed literal is read as that literal.
 package main
 
 import (
@@ -122,6 +130,7 @@ type pkg struct {
 	structs map[string]*structInfo    // translated struct types
 	vars    map[string]*ast.ValueSpec // package-level `var x = …` with one name and one value
 	vfile   map[string]*ast.File
+	consts  map[string]ast.Expr // package-level constants that are one signed literal
 }
 
 type world struct {
@@ -166,6 +175,21 @@ func (w *world) load(dir string) *pkg {
 			continue // a file that does not parse cannot contribute a function; the Go build reports it
 		}
 		desugarFile(f) // if-with-init and switch statements become blocks and if-chains (desugar.go)
+		for _, d := range f.Decls {
+			if fd, ok := d.(*ast.FuncDecl); ok {
+				elimDeadLocals(fd) // write-only locals are deleted (deadvars.go)
+				func() {           // calls of local function literals are inlined (closures.go); a literal outside its subset is left alone
+					defer func() {
+						if r := recover(); r != nil {
+							if _, ok := r.(unsupported); !ok {
+								panic(r)
+							}
+						}
+					}()
+					inlineClosures(fd)
+				}()
+			}
+		}
 		p.files[filepath.Base(fn)] = f
 		for _, d := range f.Decls {
 			if fd, ok := d.(*ast.FuncDecl); ok {
@@ -178,6 +202,20 @@ func (w *world) load(dir string) *pkg {
 					p.ffile[key] = f
 				}
 				continue
+			}
+			if gd, ok := d.(*ast.GenDecl); ok && gd.Tok == token.CONST {
+				// package-level constants that are one (signed) literal, untyped: `const noBracket = -1`
+				for _, sp := range gd.Specs {
+					vs := sp.(*ast.ValueSpec)
+					if len(vs.Names) == 1 && len(vs.Values) == 1 && vs.Type == nil && isUntypedConst(vs.Values[0]) {
+						if p.consts == nil {
+							p.consts = map[string]ast.Expr{}
+						}
+						if _, dup := p.consts[vs.Names[0].Name]; !dup {
+							p.consts[vs.Names[0].Name] = vs.Values[0]
+						}
+					}
+				}
 			}
 			if gd, ok := d.(*ast.GenDecl); ok && gd.Tok == token.VAR {
 				for _, sp := range gd.Specs {
@@ -250,6 +288,10 @@ def setIdx {τ : Type} (xs : List τ) (i : Int) (v : τ) : R (List τ) :=
 /-- ` + "`xs[k:]`" + ` -/
 def sliceFrom {τ : Type} (xs : List τ) (k : Int) : R (List τ) :=
   if k < 0 ∨ (xs.length : Int) < k then .error "index-out-of-range" else .ok (xs.drop k.toNat)
+
+/-- ` + "`arr[:k]`" + ` of an array (length = capacity) -/
+def sliceTo {τ : Type} (xs : List τ) (k : Int) : R (List τ) :=
+  if k < 0 ∨ (xs.length : Int) < k then .error "index-out-of-range" else .ok (xs.take k.toNat)
 
 /-- ` + "`make([]T, n)`" + ` with the zero value ` + "`z`" + ` of T -/
 def goMake {τ : Type} (n : Int) (z : τ) : R (List τ) :=
